@@ -387,6 +387,13 @@ Definition event_tags (vr : variant) (series : bool) (t : ety) (els : list elem)
      match t, series with
      | TL, true => if any_ic then [5] else []
      | TC, false => if any_ic then [6] else []
+     | _, _ => [] end) ++
+  (* 10 polarity:ic:C-parallel  11 polarity:ic:L-series: a common non-zero initial condition on members that point
+     opposite ways (only visible once the common value is kept instead of the sum) *)
+  (if v_polarity vr then [] else
+     match t, series with
+     | TC, false => if opp_ic then [10] else []
+     | TL, true => if opp_ic then [11] else []
      | _, _ => [] end).
 Definition no_order (sb : sub) : bool := match s_order sb with None => true | Some _ => false end.
 
@@ -501,7 +508,10 @@ Definition orig_id (x : name) : nat := match x with NOrig i => i | _ => 0 end.
    transform, keyword dropped).  [s] is the value of the Laplace variable,
    [d] the next dummy node.  Returns the new elements and the next dummy node. *)
 Variable s : K.
-Definition src_laplace (kw : skw) (x : K) : K := match kw with KwS => x | _ => fdiv x s end.
+(* [sl]: the value of the Laplace variable in the transforms of the SOURCES.  s_model() uses the same point for
+   impedances and sources; ac_model(omega) = s_model(j omega) evaluates the impedances at j omega but leaves the
+   sources as transforms in s *)
+Definition src_laplace (sl : K) (kw : skw) (x : K) : K := match kw with KwS => x | _ => fdiv x sl end.
 Definition z_of (e : elem) : K :=
   match etyp e with TC => fdiv f1 (fmul s (eval e)) | TL => fmul s (eval e) | TY => fdiv f1 (eval e) | _ => eval e end.
 Definition voc_of (e : elem) : K :=
@@ -509,17 +519,17 @@ Definition voc_of (e : elem) : K :=
 (* [lkw]: how the netlist text of an inductor's source -L i0 (a constant, no s
    in it) is read back: KwS = as an s-domain value (what the model means),
    KwNone = as a DC source (what the unchanged tree prints: "VL1 n 0 -5") *)
-Definition s_model_elem (lkw : skw) (e : elem) (d : nat) : list elem * nat :=
+Definition s_model_elem (sl : K) (lkw : skw) (e : elem) (d : nat) : list elem * nat :=
   match etyp e with
   | TR | TNR | TC | TL | TZ | TY =>
       if keqb (voc_of e) f0 then ([Elem (NVar 0 (orig_id (ename e))) TZ (enodes e) KwNone (z_of e) None], d)
       else ([Elem (NVar 0 (orig_id (ename e))) TZ [en1 e; d] KwNone (z_of e) None;
              Elem (NVar 1 (orig_id (ename e))) TV [d; en2 e] (match etyp e with TL => lkw | _ => KwS end) (voc_of e) None], S d)
-  | TV | TI => ([Elem (ename e) (etyp e) (enodes e) KwS (src_laplace (ekw e) (eval e)) None], d)
+  | TV | TI => ([Elem (ename e) (etyp e) (enodes e) KwS (src_laplace sl (ekw e) (eval e)) None], d)
   | _ => ([e], d)
   end.
-Fixpoint s_model (lkw : skw) (N : netlist) (d : nat) : netlist :=
-  match N with [] => [] | e :: N' => let '(l, d') := s_model_elem lkw e d in l ++ s_model lkw N' d' end.
+Fixpoint s_model (sl : K) (lkw : skw) (N : netlist) (d : nat) : netlist :=
+  match N with [] => [] | e :: N' => let '(l, d') := s_model_elem sl lkw e d in l ++ s_model sl lkw N' d' end.
 (* RC._noisy: R -> NR in series with a noise voltage source through a dummy
    node; kill_noise turns every noise source into a wire *)
 Definition noisy_elem (e : elem) (d : nat) : list elem * nat :=
